@@ -172,7 +172,7 @@ Section HistProofs.
 
   Lemma hstep_wf op buf r : hop_ok op -> sc_wf C buf -> f_hstep C op buf = Ok r -> sc_wf C r.
   Proof.
-    destruct op as [c|c a b|rows maxi| |]; cbn [hop_ok]; intros Hok Hwf E;
+    destruct op as [c|c a b|rows maxi| | |v]; cbn [hop_ok]; intros Hok Hwf E;
       unfold f_hstep, hstep in E.
     - unfold score_into in E. destruct (seq_rows (c_seq c)) as [n| | |]; simpl in E; try discriminate.
       eapply call_rows_wf; eauto.
@@ -180,6 +180,8 @@ Section HistProofs.
     - inversion E. apply sc_wf_resize. auto.
     - inversion E; subst; auto.
     - inversion E. apply sc_wf_empty.
+    - inversion E. intros r0 Hr. cbn [sc_mat] in *. rewrite map_length in Hr.
+      rewrite (map_nth_in _ _ _ []) by auto. rewrite map_length. apply Hwf. exact Hr.
   Qed.
 
   Lemma hrun_cons op h old : f_hrun C (op :: h) old = rbind (f_hstep C op old) (f_hrun C h).
@@ -199,7 +201,7 @@ Section HistProofs.
   Lemma hstep_scoring_ref op buf :
     is_scoring op -> hop_ok op -> sc_wf C buf -> res_equiv (f_hstep C op buf) (ref_call C op).
   Proof.
-    destruct op as [c|c a b|rows maxi| |]; cbn [is_scoring hop_ok]; intros Hs Hok Hwf; try contradiction;
+    destruct op as [c|c a b|rows maxi| | |v]; cbn [is_scoring hop_ok]; intros Hs Hok Hwf; try contradiction;
       unfold f_hstep, hstep, ref_call.
     - unfold generic_score, score_with, score_into, seq_rows.
       destruct (_ <? _); simpl; auto.
